@@ -373,6 +373,7 @@ func c09Run(w *W) {
 	stopped := false
 	stopReturned := false
 	stopStep := 0
+	doubleStop := faulty && simrt.Choose(3) == 0
 	w.After = func(res *simrt.Result) {
 		// bounded liveness once the faults have stopped: the shutdown was
 		// issued (or the deadline passed) thousands of steps ago, every harness
@@ -397,6 +398,10 @@ func c09Run(w *W) {
 		} else {
 			bs.b.Stop()
 			w.Fault("stop")
+			if doubleStop {
+				bs.b.Stop() // Stop is idempotent
+				w.Fault("stop-twice")
+			}
 		}
 		stopReturned = true
 	}
